@@ -19,6 +19,10 @@ def run(ctx):
     # long reversible stretches (clock crossing 99/100) from sparse piece positions
     shuffles = [f for f in fens if f.count("/") == 7 and sum(ch.isalpha() for ch in f.split()[0]) <= 6][: (30 if q else 300)]
     games += posgen.playouts(model, ctx.rng, shuffles, 230, bias=0)
+    # every legal move of the 'two special effects in one move' templates (promotion capturing a home-corner rook with live rights, ...)
+    combos = posgen.filter_valid(model, posgen.combo_positions(ctx.rng, 60 if q else 600))
+    games += posgen.all_moves_games(model, combos)
+    ctx.notes['combo_template_positions'] = len(combos)
     # (1) FEN after every move: engine vs rules (make_move printed by the spec)
     n1, v1 = diff_games(ctx, "g_fen", games, "position after the move differs from the rules", impl, model)
     # (2) every private field of Position vs the algorithmic model (lists in order, bitboards, keys, history)
